@@ -35,7 +35,7 @@ class MinkowskiLoss(BaseLoss):
         self,
         p: int = 2,
         coordinate_weights: NDArray | None = None,
-        coordinate_filters: list[Callable | None] | None = None,  # noqa: ARG002
+        coordinate_filters: list[Callable | None] | None = None,
     ) -> None:
         """Loss computed using a Minkowski distance.
 
@@ -53,7 +53,7 @@ class MinkowskiLoss(BaseLoss):
                 the loss computation.
         """
         self.p = p
-        super().__init__(coordinate_weights)
+        super().__init__(coordinate_weights, coordinate_filters)
 
     def compute_loss_1d(
         self,
